@@ -209,6 +209,12 @@ def run_property(pid, tier, seed, update_lock=False, only=None, verbose=False):
         e["seconds"] = round(sum(o["seconds"] for o in e["instances"]), 4)
         e["backend"] = "+".join(sorted({o["backend"] for o in e["instances"]}))
 
+    # replay children are forked: importing the repository once here makes every replay start instantly
+    try:
+        import scenic  # noqa: F401
+        import scenic.syntax.veneer  # noqa: F401
+    except Exception as e:  # the tree may be broken: replays will report it
+        print(f"note: importing scenic from the tree under test failed: {type(e).__name__}: {e}")
     known = [k for k in load_known() if k.get("property") == pid]
     lock = load_lock().get(pid, [])
     violations = []
@@ -270,13 +276,19 @@ def run_property(pid, tier, seed, update_lock=False, only=None, verbose=False):
     # ---- cross-check of engine + contract + driver against the real code: concrete inputs drawn from the
     # path conditions of fully proved contracts must NOT make the replay driver report a violation
     xcheck = dict(inputs=0, disagreements=[])
+    todo = []
     for r in reports:
         if r["error"] or not r.get("path_samples"):
             continue
         names = {o["name"] for o in r["instances"]}
         if any(obl[n]["verdict"] != "proved" for n in names):
             continue
-        res = replay_batch(modnames, r["target"], r["path_samples"])
+        todo.append(r)
+    from concurrent.futures import ThreadPoolExecutor
+
+    with ThreadPoolExecutor(max_workers=8) as tp:
+        results = list(tp.map(lambda r: replay_batch(modnames, r["target"], r["path_samples"]), todo))
+    for r, res in zip(todo, results):
         xcheck["inputs"] += len(r["path_samples"])
         for inp, (kind, text) in zip(r["path_samples"], res):
             if kind in ("violation",):
